@@ -252,6 +252,12 @@ impl Sound for StreamingSound {
 
 		let num_frames = out.len();
 		for (i, frame) in out.iter_mut().enumerate() {
+			// the ringbuffer can also run dry in the middle of a chunk. keep
+			// waiting instead of consuming the frames that arrive in the meantime
+			if self.frame_consumer.slots() < 2 && !self.shared.reached_end() {
+				*frame = Frame::ZERO;
+				continue;
+			}
 			let time_in_chunk = (i + 1) as f64 / num_frames as f64;
 			let volume = self.volume.interpolated_value(time_in_chunk).as_amplitude();
 			let fade_volume = self
